@@ -99,6 +99,11 @@ HasSrv(S, n, sid) == \E j \in DOMAIN Nd(S, n).srv : Nd(S, n).srv[j].id = sid
 Srv(S, n, sid) == Nd(S, n).srv[SrvIdx(S, n, sid)]
 SetSrv(S, n, sid, r) == [S EXCEPT !.nodes[n].srv[SrvIdx(S, n, sid)] = r]
 
+\* a customer whose server object was removed at a pre-emptive shift end keeps a reference to it
+DeadRef(sid) == 0 - (100 + sid)
+IsDeadRef(v) == v <= -100
+DeadId(v) == (0 - v) - 100
+
 \* order in which find_free_server scans the servers
 SrvOrder(S, n) ==
     LET sv == Nd(S, n).srv
@@ -128,7 +133,9 @@ KillServer(S, n, sid) ==
     LET nd == Nd(S, n)
         s == Srv(S, n, sid)
         S1 == Step(S, [St("kill") EXCEPT !.n = n, !.s = sid])
-    IN [S1 EXCEPT !.nodes[n].ot = Append(@, nd.ned - s.send),
+        S2 == IF s.cust # 0 /\ HasCu(S1, s.cust) THEN SetCu(S1, s.cust, [Cu(S1, s.cust) EXCEPT !.srv = DeadRef(sid)])
+              ELSE S1
+    IN [S2 EXCEPT !.nodes[n].ot = Append(@, IF nd.ned >= INF THEN INF ELSE nd.ned - s.send),
                   !.nodes[n].srv = RemoveAt(@, SrvIdx(S, n, sid))]
 
 \* detatch_server: credit = exit_date - service_start_date as the code computes it
@@ -458,22 +465,26 @@ Release(S, n, i, d, reroute) ==
                           !.f = IF reroute THEN 2 ELSE IF c.blk THEN 1 ELSE 0, !.x = dcount, !.y = dcap])
         finite == ~IsInfC(S, n) /\ ~IsSlotted(S, n)
     IN IF ~InSeq(nd.q[c.pprio + 1], i) THEN Crash(S0, "ValueError:release")
-       ELSE IF finite /\ c.srv <= 0 THEN Crash(S0, "AttributeError:release")
+       ELSE IF finite /\ c.srv <= 0 /\ ~IsDeadRef(c.srv) THEN Crash(S0, "AttributeError:release")
        ELSE
        LET S1 == [S0 EXCEPT !.nodes[n].q[c.pprio + 1] = RemoveFirst(@, i),
                             !.nodes[n].count = @ - 1, !.nodes[n].insvc = @ - 1]
            qd == nd.count - 1
-           sidrec == IF finite THEN c.srv ELSE 0
+           sidrec == IF finite THEN (IF IsDeadRef(c.srv) THEN DeadId(c.srv) ELSE c.srv) ELSE 0
            rec == [Rec(c, n, "service", S.now, c.dest, qd, sidrec)
                      EXCEPT !.wait = c.ss - c.arr, !.ss = c.ss, !.st = c.se - c.ss, !.se = c.se,
                             !.tb = S.now - c.se]
            S2 == IF reroute THEN S1 ELSE WriteRec(S1, i, rec)
-           S3 == IF finite THEN Detach(S2, n, c.srv, i, S.now - c.ss)
+           S3 == IF finite /\ IsDeadRef(c.srv)
+                 THEN \* the removed server object is detached; nothing of the node changes
+                      SetCu(Step(S2, [St("detach") EXCEPT !.n = n, !.s = DeadId(c.srv), !.i = i]), i,
+                            [Cu(S2, i) EXCEPT !.srv = 0])
+                 ELSE IF finite THEN Detach(S2, n, c.srv, i, S.now - c.ss)
                  ELSE IF IsSlotted(S, n) THEN SetCu(S2, i, [Cu(S2, i) EXCEPT !.srv = 0])
                  ELSE S2
            wasBlocked == c.blk
            S4 == SetCu(S3, i, ResetAttrs(Cu(S3, i)))
-           freed == IF finite THEN c.srv ELSE 0
+           freed == IF finite /\ ~IsDeadRef(c.srv) THEN c.srv ELSE 0
            afterRestart == IF reroute THEN {S4}
                            ELSE IF IsPS(S, n) THEN Crash(S4, "unmodelled:ps")
                            ELSE BeginServiceRelease(S4, n, freed)
@@ -559,6 +570,173 @@ RenegeEvent(S, n) ==
                                U3 == SetCu(U2, i, ResetAttrs(Cu(U2, i)))
                            IN Bind(Accept(U3, d, i, FALSE), LAMBDA V : ReleaseBlocked(V, n))
                    : pr \in Route(T1, n, i, 2)})
+
+----------------------------------------------------------------------------
+(* Server schedules *)
+
+\* k-th value (k >= 1) of Schedule.get_schedule_generator: <<date, number>>
+SchedGen(boundaries, values, offset, k) ==
+    LET m == Len(boundaries)
+        idx == k - 1
+    IN <<offset + boundaries[(idx % m) + 1] + (idx \div m) * boundaries[m], values[(k % m) + 1]>>
+
+\* interrupt_service (pre-emptive shift end, capacitated pre-emptive slots)
+InterruptService(S, n, i, pre) ==
+    LET c == Cu(S, i)
+        S0 == Step(S, [St("interrupt") EXCEPT !.n = n, !.i = i])
+        S1 == SetCu(S0, i, [c EXCEPT !.ost = c.st])
+    IN IF pre = 4 THEN Reroute(S1, n, i)
+       ELSE LET S2 == [S1 EXCEPT !.nodes[n].intr = Append(@, i), !.nodes[n].nintr = @ + 1]
+                S3 == SetCu(S2, i, [Cu(S2, i) EXCEPT !.intr = TRUE])
+                S4 == WriteInterruptionRecord(S3, n, i, NONE)
+                c4 == Cu(S4, i)
+                S5 == SetCu(S4, i, [c4 EXCEPT !.oss = c4.ss, !.ss = NONE,
+                                              !.left = (IF c4.se = NONE THEN 0 ELSE c4.se) - S4.now,
+                                              !.st = NONE, !.stm = pre, !.se = NONE])
+            IN {[S5 EXCEPT !.nodes[n].insvc = @ - 1]}
+
+\* stable sort of ids by (priority, arrival date) ascending
+SortByPrioArr(S, ids) ==
+    LET key(i) == <<Cu(S, i).prio, Cu(S, i).arr>>
+        Less(a, b) == LET ka == key(ids[a])
+                          kb == key(ids[b])
+                      IN ka[1] < kb[1] \/ (ka[1] = kb[1] /\ ka[2] < kb[2])
+                         \/ (ka = kb /\ a < b)
+        rank(a) == Cardinality({b \in DOMAIN ids : Less(b, a)}) + 1
+    IN Seqify([j \in DOMAIN ids |-> ids[CHOOSE a \in DOMAIN ids : rank(a) = j]])
+
+RECURSIVE InterruptAll(_, _, _, _), KillAll(_, _, _), ServeFree(_, _, _)
+
+\* take_servers_off_duty, pre-emptive: every attached customer is interrupted (server list order)
+InterruptAll(S, n, sids, pre) ==
+    IF sids = <<>> THEN {S}
+    ELSE LET sid == Head(sids)
+             S1 == IF HasSrv(S, n, sid) THEN SetSrv(S, n, sid, [Srv(S, n, sid) EXCEPT !.send = S.now]) ELSE S
+             cust == IF HasSrv(S1, n, sid) THEN Srv(S1, n, sid).cust ELSE 0
+         IN IF cust = 0 THEN InterruptAll(S1, n, Tail(sids), pre)
+            ELSE Bind(InterruptService(S1, n, cust, pre), LAMBDA T : InterruptAll(T, n, Tail(sids), pre))
+
+KillAll(S, n, sids) ==
+    IF sids = <<>> THEN S
+    ELSE KillAll(IF HasSrv(S, n, Head(sids)) THEN KillServer(S, n, Head(sids)) ELSE S, n, Tail(sids))
+
+\* begin_service_if_possible_change_shift: servers free at entry, in list order
+ServeFree(S, n, sids) ==
+    IF sids = <<>> THEN {S}
+    ELSE LET sid == Head(sids)
+             next == IF Nd(S, n).nintr > 0 THEN BeginInterrupted(S, n, sid)
+                     ELSE UNION {IF pr[1] = 0 THEN {pr[2]} ELSE StartAfter(pr[2], n, pr[1], sid) : pr \in ChooseNext(S, n)}
+         IN Bind(next, LAMBDA T : ServeFree(T, n, Tail(sids)))
+
+ShiftChange(S, n) ==
+    LET sc == NodeCfg(S, n).sched
+        nd == Nd(S, n)
+        S0 == Step(S, [St("shift") EXCEPT !.n = n])
+        \* Schedule.get_next_shift
+        k == nd.shi + 1
+        g == SchedGen(sc.ends, sc.nums, sc.off, k)
+        newc == nd.shc
+        S1 == [S0 EXCEPT !.nodes[n].c = newc, !.nodes[n].shd = g[1], !.nodes[n].shc = g[2], !.nodes[n].shi = k]
+        sids == Seqify([j \in DOMAIN nd.srv |-> nd.srv[j].id])
+        offduty ==
+            IF sc.pre = 0 THEN
+               \* non-pre-emptive: busy servers finish their customer (overtime), idle ones leave now
+               LET marked == [S1 EXCEPT !.nodes[n].srv =
+                                 Seqify([j \in DOMAIN nd.srv |-> [nd.srv[j] EXCEPT !.send = S.now, !.off = nd.srv[j].busy]])]
+                   idle == SelectSeq(sids, LAMBDA sid : ~Srv(S1, n, sid).busy)
+               IN {KillAll(marked, n, idle)}
+            ELSE Bind(InterruptAll(S1, n, sids, sc.pre), LAMBDA T :
+                   LET T1 == [T EXCEPT !.nodes[n].intr = SortByPrioArr(T, @)]
+                   IN {KillAll(T1, n, sids)})
+        addServers(T) ==
+            LET h == Nd(T, n).hid
+                T1 == Step(T, [St("addsrv") EXCEPT !.n = n, !.x = newc])
+                fresh == Seqify([j \in 1..newc |-> [id |-> h + j, cust |-> 0, busy |-> FALSE, off |-> FALSE, nend |-> INF,
+                                                    start |-> T.now, bt |-> 0, send |-> NONE]])
+            IN [T1 EXCEPT !.nodes[n].srv = @ \o fresh, !.nodes[n].hid = h + newc]
+        serve(T) ==
+            LET sv == Nd(T, n).srv
+                free == SelectSeq(Seqify([j \in DOMAIN sv |-> sv[j].id]), LAMBDA sid : ~Srv(T, n, sid).busy)
+            IN ServeFree(T, n, free)
+    IN Bind(offduty, LAMBDA T : serve(addServers(T)))
+
+----------------------------------------------------------------------------
+(* Slotted services *)
+
+\* k-th slot (k >= 1): <<date, size>>
+SlotGen(sl, k) ==
+    LET m == Len(sl.slots)
+        idx == k - 1
+    IN <<sl.off + sl.slots[(idx % m) + 1] + (idx \div m) * sl.slots[m], sl.sizes[(idx % m) + 1]>>
+
+\* ids sorted by (priority, arrival) DESCENDING, ties in original order (sorted(..., reverse=True))
+SortDesc(S, ids) ==
+    LET key(i) == <<Cu(S, i).prio, Cu(S, i).arr>>
+        Less(a, b) == LET ka == key(ids[a])
+                          kb == key(ids[b])
+                      IN ka[1] > kb[1] \/ (ka[1] = kb[1] /\ ka[2] > kb[2])
+                         \/ (ka = kb /\ a < b)
+        rank(a) == Cardinality({b \in DOMAIN ids : Less(b, a)}) + 1
+    IN Seqify([j \in DOMAIN ids |-> ids[CHOOSE a \in DOMAIN ids : rank(a) = j]])
+
+RECURSIVE InterruptSeq(_, _, _, _), SlotStarts(_, _, _)
+InterruptSeq(S, n, ids, pre) ==
+    IF ids = <<>> THEN {S}
+    ELSE Bind(InterruptService(S, n, Head(ids), pre), LAMBDA T : InterruptSeq(T, n, Tail(ids), pre))
+
+SlotStarts(S, n, k) ==
+    IF k = 0 THEN {S}
+    ELSE LET nd == Nd(S, n)
+             start(T, i) ==
+                 LET T1 == SetCu(T, i, [Cu(T, i) EXCEPT !.ss = T.now])
+                     T2 == Step(T1, [St("start") EXCEPT !.n = n, !.i = i, !.s = 0, !.x = T.now])
+                 IN GiveServiceTime(T2, n, i, LAMBDA U :
+                      LET ci == Cu(U, i)
+                          U1 == SetCu(U, i, [ci EXCEPT !.se = U.now + ci.st, !.srv = -1])
+                          U2 == [U1 EXCEPT !.nodes[n].insvc = @ + 1]
+                      IN {ResetClassChange(U2, n, i)})
+             one == IF nd.nintr > 0
+                    THEN LET i == nd.intr[1]
+                         IN start([S EXCEPT !.nodes[n].intr = Tail(@), !.nodes[n].nintr = @ - 1], i)
+                    ELSE UNION {IF pr[1] = 0 THEN {pr[2]} ELSE start(pr[2], pr[1]) : pr \in ChooseNext(S, n)}
+         IN Bind(one, LAMBDA T : SlotStarts(T, n, k - 1))
+
+SlottedService(S, n) ==
+    LET sl == NodeCfg(S, n).slot
+        nd == Nd(S, n)
+        size == nd.shc
+        S0 == Step(S, [St("slot") EXCEPT !.n = n, !.x = size, !.y = nd.insvc, !.f = nd.count, !.w = nd.intr])
+        num == IF sl.cap THEN Min2(Max2(size - nd.insvc, 0), nd.count) ELSE Min2(size, nd.count)
+        toInterrupt ==
+            IF sl.cap /\ sl.pre # 0 /\ nd.insvc - size > 0
+            THEN LET insv == SelectSeq(AllInds(S0, n), LAMBDA i : Cu(S0, i).ss # NONE)
+                     srt == SortDesc(S0, insv)
+                 IN SubSeq(srt, 1, Min2(nd.insvc - size, Len(srt)))
+            ELSE <<>>
+        g == SlotGen(sl, nd.shi + 1)
+    IN Bind(Bind(InterruptSeq(S0, n, toInterrupt, sl.pre), LAMBDA T : SlotStarts(T, n, num)),
+            LAMBDA T : {[T EXCEPT !.nodes[n].shd = g[1], !.nodes[n].shc = g[2], !.nodes[n].shi = nd.shi + 1]})
+
+----------------------------------------------------------------------------
+(* Class change while waiting *)
+
+ClassChangeEvent(S, n) ==
+    LET nd == Nd(S, n)
+    IN IF nd.nei = <<>> THEN Crash(S, "AttributeError:change_customer_class_while_waiting")
+       ELSE
+       LET i == nd.nei[1]
+           c == Cu(S, i)
+           S0 == Step(S, [St("ccw") EXCEPT !.n = n, !.i = i])
+           newp == S.cfg.prio[c.ncls]
+           S1 == SetCu(S0, i, [c EXCEPT !.cls = c.ncls, !.prio = newp])
+           moved == IF newp # c.pprio
+                    THEN IF ~InSeq(nd.q[c.pprio + 1], i) THEN Crash(S1, "ValueError:change_priority_queue")
+                         ELSE DecidePreempt([S1 EXCEPT !.nodes[n].q[c.pprio + 1] = RemoveFirst(@, i),
+                                                       !.nodes[n].q[newp + 1] = Append(@, i)], n, i)
+                    ELSE {S1}
+       IN Bind(moved, LAMBDA T :
+             LET ci == Cu(T, i)
+             IN DecideClassChange(SetCu(T, i, [ci EXCEPT !.pcls = ci.cls, !.pprio = ci.prio]), n, i))
 
 ----------------------------------------------------------------------------
 (* External arrivals *)
@@ -715,6 +893,9 @@ ExecEvent(S, a) ==
         body == IF a = 0 THEN ArrivalEvent(S0)
                 ELSE IF lab.kind = "end_service" THEN FinishService(S0, a)
                 ELSE IF lab.kind = "renege" THEN RenegeEvent(S0, a)
+                ELSE IF lab.kind = "shift_change" THEN ShiftChange(S0, a)
+                ELSE IF lab.kind = "slotted_service" THEN SlottedService(S0, a)
+                ELSE IF lab.kind = "class_change" THEN ClassChangeEvent(S0, a)
                 ELSE Crash(S0, "unmodelled:" \o lab.kind)
     IN {IF Ok(T) THEN UpdateAll(T, 1) ELSE T : T \in body}
 
@@ -733,8 +914,14 @@ InitNode(cfg, n) ==
         srv |-> [j \in 1..nsrv |-> [id |-> j, cust |-> 0, busy |-> FALSE, off |-> FALSE, nend |-> INF,
                                      start |-> 0, bt |-> 0, send |-> NONE]],
         hid |-> c, bq |-> <<>>, lbq |-> 0, intr |-> <<>>, nintr |-> 0,
-        ned |-> INF, net |-> "none", nei |-> <<>>, shd |-> INF, shc |-> 0, ot |-> <<>>,
-        nccd |-> INF, ncci |-> 0, psocc |-> 0]
+        ned |-> IF nc.kind = "sched" THEN nc.sched.off
+                ELSE IF nc.kind = "slot" THEN SlotGen(nc.slot, 1)[1] ELSE INF,
+        net |-> IF nc.kind = "sched" THEN "shift_change" ELSE IF nc.kind = "slot" THEN "slotted_service" ELSE "none",
+        nei |-> <<>>,
+        shd |-> IF nc.kind = "sched" THEN nc.sched.off ELSE IF nc.kind = "slot" THEN SlotGen(nc.slot, 1)[1] ELSE INF,
+        shc |-> IF nc.kind = "sched" THEN nc.sched.nums[1] ELSE IF nc.kind = "slot" THEN SlotGen(nc.slot, 1)[2] ELSE 0,
+        shi |-> IF nc.kind = "slot" THEN 1 ELSE 0,
+        ot |-> <<>>, nccd |-> INF, ncci |-> 0, psocc |-> 0]
 
 \* states after ArrivalNode.initialise: one inter-arrival draw per stream with a distribution
 RECURSIVE InitArr(_, _, _)
